@@ -640,6 +640,17 @@ func (g *Gen) mergeStates(b *ssa.BasicBlock, es []inEdge) *State {
 			r := g.fresh(fmt.Sprintf("R%d", b.Index), "Bool")
 			g.emit("(assert " + eq(r, es[0].guard) + ")")
 			st.reach = r
+			// a join narrowed by a branch condition is still a disjunction of the join's incoming paths: keep them, so
+			// that quantified obligations further down can be proved path by path
+			if ps, ok := g.joinParts[es[0].st.reach]; ok && len(ps) <= 8 {
+				var parts []string
+				for _, p := range ps {
+					parts = append(parts, and(p, es[0].guard))
+				}
+				g.joinParts[r] = parts
+			}
+		} else if ps, ok := g.joinParts[es[0].st.reach]; ok {
+			_ = ps
 		}
 		return st
 	}
